@@ -15,6 +15,7 @@ import (
 	"os/exec"
 	"path/filepath"
 	"strings"
+	"sync"
 	"time"
 
 	"verifharness/internal/core"
@@ -100,7 +101,39 @@ func main() {
 }
 `
 
-func (prop) Extra(r *core.RNG, tier string, scratch string) (violations []string, notes []string, stats map[string]any) {
+// The concurrent run happens BEFORE the in-process cases (Generate is only called on a normal run, not for
+// replays and shrink rounds): if it reports a data race or dies ("fatal error: concurrent map writes" cannot be
+// recovered), the in-process executor serialises all its calls so that the harness itself survives and the
+// finding is reported with the detector's output instead of a crashed harness.
+var (
+	preDone       bool
+	preViolations []string
+	preNotes      []string
+	preStats      map[string]any
+	serialize     bool
+	serialMu      sync.Mutex
+)
+
+func preflight(r *core.RNG, tier string) {
+	dir, err := os.MkdirTemp("", "verif-C20-race-")
+	if err != nil {
+		preNotes = append(preNotes, "race run skipped: "+err.Error())
+		return
+	}
+	defer os.RemoveAll(dir)
+	preViolations, preNotes, preStats = raceRun(r, tier, dir)
+	preDone = true
+	serialize = len(preViolations) > 0
+}
+
+func (prop) Extra(_ *core.RNG, tier string, _ string) (violations []string, notes []string, stats map[string]any) {
+	if !preDone {
+		return nil, preNotes, map[string]any{"exhaustive": false}
+	}
+	return preViolations, preNotes, preStats
+}
+
+func raceRun(r *core.RNG, tier string, scratch string) (violations []string, notes []string, stats map[string]any) {
 	stats = map[string]any{"exhaustive": tier == "thorough"}
 	sd, err := loadSides()
 	if err != nil {
